@@ -21,7 +21,8 @@ for f in fixed:
 out.append("\n### 14.2 Open (known findings)\n")
 out.append("| finding | properties | deviation switch | site | what fails |\n|---|---|---|---|---|")
 for f in openf:
-    out.append(f"| {f['id']} | {', '.join(f['properties'])} | `{f['deviation']}` | {esc(f['site'])} | {esc(f['what'])} |")
+    why = f" *Why not repaired:* {esc(f['why_open'])}" if f.get('why_open') else ''
+    out.append(f"| {f['id']} | {', '.join(f['properties'])} | `{f['deviation']}` | {esc(f['site'])} | {esc(f['what'])}{why} |")
 findings = "\n".join(out) + "\n"
 
 rows = []
